@@ -69,7 +69,33 @@ pub fn generate(seed: u64, instrs: &[String]) -> RunloopSc {
         state.exec.clear();
     }
     let cap = cfg.growth_cap as i64;
-    let (family, prog): (&str, Vec<ISpec>) = match r.below(8) {
+    let (family, prog): (&str, Vec<ISpec>) = match r.below(10) {
+        8 | 9 => {
+            // coincidences: the step that grows the state beyond the cap is step number
+            // limit-1 .. limit+2, i.e. limits are reached on one and the same step
+            let lim = r.range(0, 20) as i32;
+            cfg.eval_push_limit = lim;
+            cfg.growth_cap = r.below(4) as usize;
+            let g = cfg.growth_cap + 1 + r.below(3) as usize; // items in the exploding list (growth g-1 .. )
+            let k = (lim as i64 + r.range(-1, 2)).max(0) as usize; // steps before the explosion
+            let mut v = vec![];
+            for _ in 0..k {
+                v.push(match r.below(3) {
+                    0 => i("NOOP"),
+                    1 => ISpec::Int(1),
+                    _ => ISpec::I("UNKNOWN.OP".to_string()),
+                });
+            }
+            let mut inner = vec![];
+            for _ in 0..(g + 1) {
+                inner.push(ISpec::Int(2));
+            }
+            v.push(ISpec::L(inner));
+            v.push(i("NOOP"));
+            v.push(i("INTEGER.DUP"));
+            state.exec.clear();
+            ("coincidence", v)
+        }
         7 => {
             // steps whose net growth is +1 on one particular stack, pushed one by one
             // (no list to unpack), against a cap of 0 or 1: pins down what size() counts
